@@ -294,6 +294,11 @@ func genGuarded(t *rapid.T) GuardedCase {
 	return c
 }
 
+func genCardFan(t *rapid.T) Case {
+	_, ps := gen.CardFan(t)
+	return Case{Front: "card", Constrs: ps}
+}
+
 func genPB(front string) func(t *rapid.T) Case {
 	return func(t *rapid.T) Case {
 		_, ps := gen.PBConstrs(t, gen.PBOpts{MinN: 1, MaxN: 8, MaxConstrs: 4, MaxArity: 6, Card: front == "card"})
@@ -311,6 +316,8 @@ func init() {
 			Rule:    "3-SAT at ratio 3.0..4.2 and parity systems with n-9..n-3 constraints, n in 12..18: many models and real conflicts during enumeration" + tail},
 		vf.Sub[GuardedCase]{Name: "guarded-pigeonhole", Quick: 16, Thorough: 200, Gen: genGuarded, Check: checkGuarded, Floor: 0,
 			Rule: "pigeonhole PHP(6,5)/PHP(7,6) guarded by a variable g (g -> PHP, not g -> all pigeonhole variables false), one unit clause and 0..3 free variables: exactly 2^e models by construction; CountModels or Enumerate(chan) must refute PHP under g = true in the middle of the enumeration (hundreds of conflicts, restarts, reductions with a lowered limit); non-trivial = >=100 conflicts"},
+		vf.Sub[Case]{Name: "card-fan", Quick: 4000, Thorough: 80000, Gen: genCardFan, Check: check, Floor: 0.5,
+			Rule: "ParseCardConstrs: one or two cardinality constraints 'at least 3..4 of 6..9 literals' over 9..13 variables, a trigger variable whose binary clauses falsify 2..K+1 of the first K+1 literals of a constraint at once (in position order, reverse order or shuffled), a second one that makes spare literals true, 0..4 loose binary clauses" + tail},
 		vf.Sub[Case]{Name: "card", Quick: 8000, Thorough: 100000, Gen: genPB("card"), Check: check, Floor: 0.15,
 			Rule: "cardinality constraints (n<=8, <=4 constraints) via ParseCardConstrs" + tail},
 		vf.Sub[Case]{Name: "pb", Quick: 8000, Thorough: 100000, Gen: genPB("pb"), Check: check, Floor: 0.15,
